@@ -3,6 +3,8 @@ package gen
 
 import (
 	"encoding/xml"
+	"fmt"
+	"sort"
 	"strings"
 
 	"pgregory.net/rapid"
@@ -88,4 +90,47 @@ func Tree(t *rapid.T, label string, depth int, ns string) *xt.Node {
 		lastText = false
 	}
 	return n
+}
+
+// SpellText returns character content of an XML element that denotes exactly s
+// in one of the spellings XML allows: the text is cut into one to three runs
+// (at rune boundaries) and every run is written either as escaped text, as a
+// CDATA section, or as numeric character references.  A decoder hands such
+// content to its user as several character-data tokens.  (Characters that XML
+// cannot carry at all must not occur in s.)
+func SpellText(t *rapid.T, label, s string) string {
+	runes := []rune(s)
+	cuts := []int{0, len(runes)}
+	if len(runes) > 1 {
+		for k := rapid.IntRange(0, 2).Draw(t, label+"-cuts"); k > 0; k-- {
+			cuts = append(cuts, rapid.IntRange(0, len(runes)).Draw(t, label+"-cut"))
+		}
+	}
+	sort.Ints(cuts)
+	var sb strings.Builder
+	for i := 0; i+1 < len(cuts); i++ {
+		run := string(runes[cuts[i]:cuts[i+1]])
+		if run == "" && rapid.IntRange(0, 3).Draw(t, label+"-emptycdata") != 0 {
+			continue
+		}
+		kind := rapid.IntRange(0, 3).Draw(t, label+"-spelling")
+		if kind == 1 && strings.Contains(run, "]]>") {
+			kind = 0
+		}
+		switch kind {
+		case 1:
+			sb.WriteString("<![CDATA[" + run + "]]>")
+		case 2:
+			for _, r := range run {
+				if rapid.Bool().Draw(t, label+"-hex") {
+					fmt.Fprintf(&sb, "&#x%X;", r)
+				} else {
+					fmt.Fprintf(&sb, "&#%d;", r)
+				}
+			}
+		default:
+			_ = xml.EscapeText(&sb, []byte(run))
+		}
+	}
+	return sb.String()
 }
